@@ -25,6 +25,16 @@ func builtinGlobalEval(call FunctionCall) Value {
 		// Not a direct call to eval, so we enter the global ExecutionContext
 		rt.enterGlobalScope()
 		defer rt.leaveScope()
+	} else {
+		// A direct eval runs in the scope of its caller and enters none, so the
+		// depth check of enterScope never sees it: eval code that evals itself
+		// (var s = "eval(s)"; eval(s)) recursed until the Go stack was exhausted.
+		// Active direct evals count against the stack depth limit like scopes.
+		rt.evalDepth++
+		defer func() { rt.evalDepth-- }()
+		if rt.stackLimit != 0 && rt.scope != nil && rt.scope.depth+rt.evalDepth >= rt.stackLimit {
+			panic(rt.panicRangeError("Maximum call stack size exceeded"))
+		}
 	}
 	returnValue := rt.cmplEvaluateNodeProgram(program, true)
 	if returnValue.isEmpty() {
